@@ -833,3 +833,202 @@ def partial_divmod(a, b):
 
 
 CASES += [("partial_divmod", [7, 3]), ("partial_divmod", [0, 5])]
+
+
+# ---- modern idioms (benign round 2)
+import operator as _op
+import contextlib as _cl
+from dataclasses import dataclass, fields as _dcfields, asdict as _asdict, astuple as _astuple
+from typing import Final as _Final
+from collections import defaultdict as _defaultdict, Counter as _Counter, deque as _deque
+
+_LIMIT: _Final = 1 << 4
+
+
+@dataclass
+class _Pt:
+    x: int
+    y: int = 0
+
+
+class _Shape:
+    __match_args__ = ("kind", "size")
+
+    def __init__(self, kind, size):
+        self.kind, self.size = kind, size
+
+
+def walrus_ops(v):
+    out = []
+    if (n := len(v)) > 2:
+        out.append(n)
+    while (x := (v.pop() if v else None)) is not None:
+        out.append(x)
+    return out + [y for z in (1, 2, 3) if (y := z * 2) > 2]
+
+
+def match_values(x):
+    match x:
+        case 0:
+            return "zero"
+        case 1 | 2:
+            return "small"
+        case int() if x < 0:
+            return "negative"
+        case int():
+            return "int"
+        case str() as s:
+            return "str:" + s
+        case None:
+            return "none"
+        case [a]:
+            return ["one", a]
+        case [a, b, *rest]:
+            return ["many", a, b, rest]
+        case []:
+            return "empty"
+        case {"k": v, **others}:
+            return ["map", v, sorted(others)]
+        case _:
+            return "other"
+
+
+def match_classes(kind, size):
+    s = _Shape(kind, size)
+    match s:
+        case _Shape("sq", n) if n > 2:
+            r = ["big square", n]
+        case _Shape(kind="sq", size=n):
+            r = ["square", n]
+        case _Shape(k, _):
+            r = ["shape", k]
+    p = _Pt(size)
+    match p:
+        case _Pt(x=0):
+            r.append("origin-x")
+        case _Pt(x, y):
+            r.append([x, y])
+    return r
+
+
+def match_tail(v):
+    match v:
+        case [*_, last]:
+            return last
+        case _:
+            return "nothing"
+
+
+def star_unpack(v):
+    first, *rest = v
+    *init, last = v
+    (a, b), *others = [(1, 2), (3, 4), (5, 6)]
+    return [first, rest, init, last, a, b, others, [*v, *rest], {**{"a": 1}, "b": 2}]
+
+
+def dict_union(a, b):
+    d = dict(a) | dict(b)
+    e = dict(a)
+    e |= {"z": 26}
+    return [list(d.items()), list(e.items()), list(({"q": 1} | {"q": 2}).items())]
+
+
+def operator_getters(v):
+    p = _Pt(3, 4)
+    ag = _op.attrgetter("x", "y")
+    one = _op.attrgetter("y")
+    ig = _op.itemgetter(1)
+    ig2 = _op.itemgetter(0, 2)
+    return [list(ag(p)), one(p), ig(v), list(ig2(v)), sorted([[2, "b"], [1, "a"]], key=_op.itemgetter(0)), _op.or_(4, 1), _op.add(2, 3),
+            _ft.reduce(_op.or_, [1, 2, 4], 0), _ft.reduce(lambda a, b: a * b, [2, 3, 4])]
+
+
+def ctx_managers(flag):
+    log = []
+    with _cl.suppress(KeyError):
+        log.append("in")
+        if flag:
+            raise KeyError("x")
+        log.append("after")
+    with _cl.ExitStack() as stack:
+        stack.callback(log.append, "cb1")
+        stack.callback(lambda: log.append("cb2"))
+        log.append("body")
+    try:
+        with _cl.ExitStack() as stack:
+            stack.callback(log.append, "cleanup")
+            if flag:
+                raise ValueError("boom")
+    except ValueError:
+        log.append("caught")
+    return log
+
+
+def zip_strict(a, b):
+    try:
+        return [list(p) for p in zip(a, b, strict=True)]
+    except ValueError:
+        return "ValueError"
+
+
+def str_methods(s):
+    # (f-strings are an abstraction in the engine - some string: they only build messages in the verified code)
+    return [s.removeprefix("ab"), s.removesuffix("yz"), "%s:%d" % (s, 3), s.startswith(("a", "x")), s.partition("c")[2], s.zfill(8)]
+
+
+def collections_ops(v):
+    dd = _defaultdict(list)
+    for i, x in enumerate(v, start=1):
+        dd[x % 2].append(i)
+    c = _Counter(v)
+    dq = _deque(v, maxlen=3)
+    dq.append(99)
+    return [sorted(dd.items()), sorted(c.items()), list(dq), dq[0], len(dq), c[12345]]
+
+
+def dataclass_tools(a, b):
+    p = _Pt(a, b)
+    return [[f.name for f in _dcfields(p)], _asdict(p), list(_astuple(p)), _LIMIT, p == _Pt(a, b)]
+
+
+def key_functions(v):
+    return [sorted(v, key=lambda x: -x), min(v, key=lambda x: abs(x - 3)), max(v, key=abs), sum(x for x in v if x > 1), any(x > 3 for x in v),
+            all(x > 0 for x in v), 1 < len(v) <= 5, "yes" if v else "no", max(v, default=0), min([], default="d")]
+
+
+class _Lazy:
+    def __init__(self, n):
+        self.n = n
+        self.calls = 0
+
+    @_ft.cached_property
+    def doubled(self):
+        self.calls += 1
+        return self.n * 2
+
+
+def cached_things(n):
+    o = _Lazy(n)
+    a, b = o.doubled, o.doubled
+
+    @_ft.cache
+    def sq(x):
+        return x * x
+    return [a, b, o.calls, sq(3), sq(3)]
+
+
+def int_bytes(n):
+    b = n.to_bytes(length=4, byteorder="big")
+    return [b, int.from_bytes(b, byteorder="big"), int.from_bytes(bytes=b, byteorder="little"), b.hex(), n.to_bytes(2, "little", signed=False)]
+
+
+CASES += [
+    ("walrus_ops", [[1, 2, 3]]), ("walrus_ops", [[]]),
+    ("match_values", [0]), ("match_values", [2]), ("match_values", [-5]), ("match_values", [7]), ("match_values", ["s"]), ("match_values", [None]),
+    ("match_values", [[9]]), ("match_values", [[1, 2, 3, 4]]), ("match_values", [[]]), ("match_values", [{"k": 1, "z": 2}]), ("match_values", [1.5]),
+    ("match_classes", ["sq", 3]), ("match_classes", ["sq", 1]), ("match_classes", ["tri", 0]), ("match_tail", [[1, 2, 3]]), ("match_tail", [[]]),
+    ("star_unpack", [[1, 2, 3]]), ("star_unpack", [[7]]), ("dict_union", [[["a", 1]], [["a", 2], ["b", 3]]]),
+    ("operator_getters", [[10, 20, 30]]), ("ctx_managers", [True]), ("ctx_managers", [False]), ("zip_strict", [[1, 2], [3, 4]]), ("zip_strict", [[1], [3, 4]]),
+    ("str_methods", ["abcxyz"]), ("str_methods", ["q"]), ("collections_ops", [[1, 2, 3, 4, 5]]), ("dataclass_tools", [1, 2]),
+    ("key_functions", [[1, 5, 2]]), ("cached_things", [4]), ("int_bytes", [258]),
+]
